@@ -393,4 +393,46 @@ def textDomain (ad : Bytes) : List Char :=
 def hostText (atyp : UInt8) (ad : Bytes) : List Char :=
   if atyp = 1 then textV4 ad else if atyp = 4 then textV6 ad else textDomain ad
 
+/-! ### reading the text back (used only in theorem statements: the text determines the address) -/
+
+def isDigit (c : Char) : Bool := 48 ≤ c.toNat && c.toNat ≤ 57
+
+/-- consume the leading decimal digits -/
+def takeDec : List Char → Nat → Nat × List Char
+  | [], acc => (acc, [])
+  | c :: r, acc => if isDigit c then takeDec r (acc * 10 + (c.toNat - 48)) else (acc, c :: r)
+
+/-- dotted quad → 4 bytes -/
+def parseV4 (t : List Char) : Option Bytes :=
+  match takeDec t 0 with
+  | (a, '.' :: r1) =>
+    match takeDec r1 0 with
+    | (b, '.' :: r2) =>
+      match takeDec r2 0 with
+      | (c, '.' :: r3) =>
+        match takeDec r3 0 with
+        | (d, []) => some [UInt8.ofNat a, UInt8.ofNat b, UInt8.ofNat c, UInt8.ofNat d]
+        | _ => none
+      | _ => none
+    | _ => none
+  | _ => none
+
+/-- the ASCII bytes of a text -/
+def asciiBytes (t : List Char) : Bytes := t.map fun c => UInt8.ofNat c.toNat
+
+/-- (host text, port) pairs assigned to `context.server.address` -/
+def addrTexts (o : List Out) : List (List Char × Nat) := (setAddrs o).map fun x => (hostText x.1 x.2.1, x.2.2)
+
+/-- is `[b, b+l)` a run of zero words of `z` (true = zero word)? -/
+def isZeroRun (z : List Bool) (b l : Nat) : Bool :=
+  decide (b + l ≤ z.length) && (List.range l).all fun i => z.getD (b + i) false
+
+/-- RFC 5952 §4.2: the run replaced by "::" is a run of at least two zero words, no zero run is longer, and no
+    equally long one starts further left; if there is none, no two adjacent words are zero -/
+def bestRunSpec (z : List Bool) : Option Run → Bool
+  | none => (List.range z.length).all fun b => !isZeroRun z b 2
+  | some r => decide (2 ≤ r.len) && isZeroRun z r.base r.len &&
+      (List.range (z.length + 1)).all fun b => (List.range (z.length + 1)).all fun l =>
+        !isZeroRun z b l || (decide (l < r.len) || (decide (l = r.len) && decide (r.base ≤ b)))
+
 end MitmVerif.C21
